@@ -10,7 +10,7 @@ use std::fmt::Debug;
 const ID: &str = "C12";
 
 pub fn alphabet() -> Vec<&'static str> {
-    vec!["1", "1.5", "\"s\"", "true", "a", "f", "len", "(", ")", ",", ";", "+", "=", "!", "&"]
+    vec!["1", "1.5", "\"s\"", "true", "a", "f", "len", "(", ")", ",", ";", "+", "=", "!", "&", "&&"]
 }
 
 fn canon<T: Debug>(r: &Result<T, EErr>) -> String {
@@ -176,6 +176,7 @@ pub fn contexts() -> Vec<(String, HCtx)> {
         RV::Str("t".into()),
         RV::Bool(false),
         RV::Tuple(vec![RV::Int(1), RV::Int(2)]),
+        RV::Tuple(vec![]),
         RV::Empty,
     ] {
         let mut c = HCtx::new();
@@ -209,7 +210,21 @@ fn check(src: &str, ctxs: &[(String, HCtx)], st: &mut Stats) {
         },
     };
     st.count(if tree.is_ok() { "sources/precompile" } else { "sources/rejected" });
-    for (cname, c) in ctxs {
+    // one more context per source: variables whose *names* are the source text itself (set_value accepts
+    // any string); unless the source is that bare identifier they are never read, and every relation
+    // below must hold there as well (an entry point that looks the whole string up first breaks them)
+    let mut own: Vec<(String, HCtx)> = Vec::new();
+    let single_ident = matches!(crate::refmodel::lexer::lex(src).as_deref(), Ok([crate::refmodel::lexer::LTok::Ident(_)]));
+    if !single_ident {
+        let mut c = HCtx::new();
+        let ok = c.set_value("a".into(), Value::Int(2)).is_ok()
+            && c.set_value(src.to_string(), Value::Int(77)).is_ok()
+            && c.set_value(src.trim().to_string(), Value::Int(77)).is_ok();
+        if ok {
+            own.push(("a = 2 and a variable named like the source text".into(), c));
+        }
+    }
+    for (cname, c) in ctxs.iter().chain(own.iter()) {
         let before = observe_vars(c);
         let run_string = |out: &mut Results| string_level!(src, c, out);
         let mut s1 = Results { res: vec![], after: vec![] };
@@ -530,7 +545,7 @@ pub fn run(cfg: &Cfg) -> Report {
     Report {
         property: ID,
         level: "model_checking",
-        rule: format!("every token sequence of length <= {max} over the {a}-token alphabet `1 1.5 \"s\" true a f len ( ) , ; + = ! &` (well-formed or not; reaches all six result types and every error stage) x 11 contexts (fresh; a bound to each of the six types; user function f; builtins disabled; a user function shadowing the builtin `len`) x all 24 string-level entry points (run twice) + the 24 Node methods + build_operator_tree; oracle: each typed result is the projection of the matching untyped result, `_mut` variants leave the same context, tree level = string level, context-free = fresh HashMapContext, precompile error passed through by all 48; plus every history of 2 (quick) / 3 (thorough) context-free calls over a pool of 21 sources (assignments, assignments followed by a failure, reads, retypes) run back to back on one thread: the last call must behave as evaluation in a fresh context; plus scaling families (sums, products, concatenations, negations, tuples, chains of assignments, nestings, call chains of n elements for n in 1..20 and up to 129 / 1..40 and up to 400) through all entry points. States = sources, transitions = entry-point executions. Non-trivial = sources of >= 2 tokens (each enumerated once)"),
+        rule: format!("every token sequence of length <= {max} over the {a}-token alphabet `1 1.5 \"s\" true a f len ( ) , ; + = ! & &&` (well-formed or not; reaches all six result types and every error stage) x 13 contexts (fresh; a bound to each of the six types and to the empty tuple; user function f; builtins disabled; a user function shadowing the builtin `len`; a context holding variables named like the source text itself) x all 24 string-level entry points (run twice) + the 24 Node methods + build_operator_tree; oracle: each typed result is the projection of the matching untyped result, `_mut` variants leave the same context, tree level = string level, context-free = fresh HashMapContext, precompile error passed through by all 48; plus every history of 2 (quick) / 3 (thorough) context-free calls over a pool of 21 sources (assignments, assignments followed by a failure, reads, retypes) run back to back on one thread: the last call must behave as evaluation in a fresh context; plus scaling families (sums, products, concatenations, negations, tuples, chains of assignments, nestings, call chains of n elements for n in 1..20 and up to 129 / 1..40 and up to 400) through all entry points. States = sources, transitions = entry-point executions. Non-trivial = sources of >= 2 tokens (each enumerated once)"),
         nontrivial_set: "counter:nontrivial-distinct",
         exhaustive: true,
         bound_completed: format!("token sequences of length {max}"),
